@@ -1263,13 +1263,19 @@ class FileStorage(
                     self._files.empty()
                     self._file.close()
                     try:
-                        os.rename(self._file_name, oldpath)
+                        try:
+                            # A hard link names the unpacked file .old while
+                            # Data.fs stays in place until it is replaced,
+                            # so a crash never leaves us without a Data.fs.
+                            os.link(self._file_name, oldpath)
+                        except (AttributeError, OSError):
+                            os.rename(self._file_name, oldpath)  # no links
+                        os.replace(self._file_name + '.pack', self._file_name)
                     except Exception:
+                        if not os.path.exists(self._file_name):
+                            os.rename(oldpath, self._file_name)
                         self._file = open(self._file_name, 'r+b')
                         raise
-
-                    # OK, we're beyond the point of no return
-                    os.rename(self._file_name + '.pack', self._file_name)
                     self._file = open(self._file_name, 'r+b')
                     self._initIndex(index, self._tindex)
                     self._pos = opos
